@@ -466,7 +466,7 @@ class NetworkGraph(AbstractBaseIR):
             a = n / delay if delay else 0.0
             for k in range(1, n + 1):
                 zk = f'{var}_d{k}{buffer_id}'
-                zk_rate = f'k_d{k}{buffer_id}'
+                zk_rate = f'k_{var}_d{k}{buffer_id}'   # (per source variable: two variables of one operator may carry kernels)
                 prev = var if k == 1 else f'{var}_d{k-1}{buffer_id}'
                 var_dict[zk] = {'vtype': 'state_var', 'dtype': 'float',
                                 'shape': (Ns,), 'value': [0.0] * Ns}
